@@ -577,6 +577,10 @@ pub struct ObjParams {
     pub listener_slowness: Vec<u32>,
     /// multi: cancel this listener alone (flush_and_cancel_executor) after event #n was sent, before the final close
     pub cancel_one: Option<(usize, usize)>,
+    /// `channel.cancel_all_streams()` is called (and this much virtual time passes: u32::MAX = a bare yield) before the
+    /// graceful, unbounded close: every stream has already been told to end and may still be draining and processing
+    #[serde(default)]
+    pub pre_cancel_ms: Option<u32>,
 }
 
 const OBJ_BUFFER: usize = 8;
@@ -770,6 +774,10 @@ where
             }
         }
         gap(p2.close_gap_ms).await;
+        if let Some(ms) = p2.pre_cancel_ms {
+            uni.channel.cancel_all_streams();
+            gap(ms).await;
+        }
         let answer = uni.close(Duration::ZERO).await;
         // ---- the instant close() returned (no await between the return and these reads)
         {
@@ -996,6 +1004,10 @@ where
             }
         }
         gap(p2.close_gap_ms).await;
+        if let Some(ms) = p2.pre_cancel_ms {
+            multi.channel.cancel_all_streams();
+            gap(ms).await;
+        }
         let answer = multi.close(Duration::ZERO).await;
         {
             let acc = accepted2.lock().unwrap();
@@ -1180,6 +1192,7 @@ impl Scenario for ObjExec {
             close_gap_ms: *rng.pick(&[0, 0, u32::MAX, 1, 5, 40]),
             listener_slowness: (0..listeners).map(|_| 1 + rng.below(3) as u32).collect(),
             cancel_one: if self.multi && listeners > 1 && n > 0 && rng.chance(1, 3) { Some((rng.below(listeners as u64) as usize, rng.below(n as u64) as usize)) } else { None },
+            pre_cancel_ms: if rng.chance(1, 5) { Some(*rng.pick(&[0, 0, u32::MAX, 1, 4])) } else { None },
         }
     }
     fn sched<'a>(&self, p: &'a ObjParams) -> &'a SchedSpec {
@@ -1233,6 +1246,11 @@ impl Scenario for ObjExec {
         if p.cancel_one.is_some() {
             let mut q = p.clone();
             q.cancel_one = None;
+            out.push(q);
+        }
+        if p.pre_cancel_ms.is_some() {
+            let mut q = p.clone();
+            q.pre_cancel_ms = None;
             out.push(q);
         }
         if p.listeners > 1 {
